@@ -12,6 +12,7 @@ RULE = ("one case = (solver in {nonlinear_roots, hybrj, newtontrustregion}, disp
         "non-trivial = solver returned or raised an admissible error; distinct by (solver, path, family, n, jac, guess, tol, seed)")
 ASSUMPTIONS = ["the Jacobian norm converts MINPACK's step-based xtol into a residual bound; main families keep ||J|| in [0.1,10]",
                "failure on a solvable system is counted (rate in evidence) but is not a violation of this property"]
+RULE += " Strata added in the fourth seeding round: Restricted-domain systems (log, sqrt) with guesses from which the iteration leaves the domain; a non-finite residual at a claimed root is a violation."
 FLOORS = {"quick": {"solver_calls": 700, "success_minpack": 100, "failure_minpack": 30, "success_dogleg": 60, "failure_dogleg": 20, "rootless_cases": 120, "insitu_stage_solves": 200, "zero_diagonal_jacobian_cases_dogleg": 25, "small_iteration_budget_failures_ntr": 10, "small_iteration_budget_cases_dogleg": 60},
           "thorough": {"solver_calls": 7000, "success_minpack": 1000, "failure_minpack": 300, "success_dogleg": 600, "failure_dogleg": 200, "rootless_cases": 1200, "insitu_stage_solves": 2000, "zero_diagonal_jacobian_cases_dogleg": 250, "small_iteration_budget_failures_ntr": 100, "small_iteration_budget_cases_dogleg": 600}}
 FAMILIES = ["dd", "singular2", "singular3", "rootless_quadratic", "flat", "scaled", "dd", "hollow"]
